@@ -318,7 +318,8 @@ def big_world(arg):
     ledger.setup()
     seams.deterministic_wallet_signing()
     vals = {'5-ones-4': (5,) + (1,) * (N - 2) + (4,), 'ones': (1,) * N, 'ones-7': (1,) * (N - 1) + (7,),
-            '9-ones': (9,) + (1,) * (N - 1), 'twos': (2,) * N}[pattern]
+            '9-ones': (9,) + (1,) * (N - 1), 'twos': (2,) * N,
+            'twos-51s': (2,) * (N - 10) + (51,) * 10}[pattern]
     dist = (vals[:N // 2], vals[N // 2:]) if two_keys else (vals, ())
     root, n1 = make_world(dist, False, False, 'asc')
     cs0 = CoinState.empty().add_block_no_validation(root.block).add_block(n1.block, n1.ts)
@@ -338,6 +339,12 @@ def big_world(arg):
         # change is due whenever the amount is odd: 1,978 inputs and change fit, 1,979 inputs without change fit, 1,979
         # inputs WITH change do not
         attempts = [(2 * 1978 - 1, 0), (2 * 1978, 0), (2 * 1979 - 1, 0), (2 * 1979 - 2, 1), (2 * 1979, 0), (2 * 1979 - 1, 1), (2 * 1980 - 1, 0)]
+    if pattern == 'ones-7' and N >= 2000:
+        # in ledger order these need more inputs than fit; with the 7 taken first 1,978 inputs give 1,984 and 1,979 give 1,985
+        attempts = [(1983, 0), (1984, 0), (1984, 1), (1985, 0), (1986, 0)]
+    if pattern == 'twos-51s':
+        # ledger order: 1,986 / 1,986 / 2,201 inputs; largest first: 1,741 inputs and change 1 / no change / 1,956 inputs
+        attempts = [(3971, 0), (3972, 0), (4400, 1)]
     # (the attempts of one world are independent single steps from the same state: they may be spread over workers)
     attempts = attempts[part::nparts]
     for amount, fee in attempts:
@@ -353,7 +360,8 @@ def big_world(arg):
 def big_worlds(ctx):
     N = 1100
     # (2,100 outputs: requests that need more inputs than fit in a block)
-    out = [('5-ones-4', N, False, 0), ('ones-7', N, False, 0), ('9-ones', N, True, 0), ('5-ones-4', 2100, False, 0), ('twos', 2100, False, 0)]
+    out = [('5-ones-4', N, False, 0), ('ones-7', N, False, 0), ('9-ones', N, True, 0), ('5-ones-4', 2100, False, 0), ('twos', 2100, False, 0),
+           ('ones-7', 2100, False, 0), ('twos-51s', 2100, False, 0)]
     if not ctx.quick:
         out += [('ones', N, False, 0), ('5-ones-4', N, True, 1), ('9-ones', 2100, True, 1)]
     # the large worlds first and in parts, so that no single worker carries the whole of one
